@@ -689,11 +689,16 @@ impl DScenario {
             Tier::Quick => 400,
             Tier::Thorough => 5000,
         };
-        let len = match rng.below(10) {
+        let len = if rng.below(2500) == 0 {
+            // rarely: a stream crossing 2^15 and 2^16 observations
+            rng.range(33_000, 70_000)
+        } else {
+            match rng.below(10) {
             0 => rng.usize(8),
             1..=6 => 5 + rng.usize(40),
             7..=8 => 5 + rng.usize(300.min(max_len)),
             _ => 5 + rng.usize(max_len),
+            }
         };
         let kind = rng.below(10);
         let alph = 2 + rng.below(3);
